@@ -20,7 +20,12 @@ SUITE = "CARGO_NET_OFFLINE=true cargo nextest run --workspace --no-fail-fast --t
 
 
 def sh(cmd, cwd=None, timeout=3600):
-    p = subprocess.run(cmd, shell=True, cwd=cwd, stdout=subprocess.PIPE, stderr=subprocess.STDOUT, text=True, timeout=timeout)
+    try:
+        p = subprocess.run(cmd, shell=True, cwd=cwd, stdout=subprocess.PIPE, stderr=subprocess.STDOUT, text=True, timeout=timeout)
+    except subprocess.TimeoutExpired as e:
+        subprocess.run("pkill -f 'target/release/okv (worker|only|describe)'", shell=True)
+        out = e.stdout.decode() if isinstance(e.stdout, bytes) else (e.stdout or "")
+        return 124, out + "\nTIMEOUT after %s s" % timeout
     return p.returncode, p.stdout
 
 
